@@ -252,9 +252,8 @@ func (m *tsManager) GetTargetChannelChan(replicateID string) <-chan string {
 
 func (m *tsManager) GetTargetMsgChan(replicateID string, channelName string) <-chan *api.ReplicateMsg {
 	channelKey := FormatChanKey(replicateID, channelName)
-	m.channelTSLocks.RLock(channelKey)
-	defer m.channelTSLocks.RUnlock(channelKey)
-
+	// don't take the channel lock here: a producer holds it while it waits for room in the target channel,
+	// and the consumer, which makes the room, gets the channel by this method. The channel of a ts info never changes.
 	ts, ok := m.channelTS2.Get(channelKey)
 	if !ok {
 		return nil
@@ -301,13 +300,15 @@ func (m *tsManager) InitTSInfo(replicateID string, channelName string, p time.Du
 			m.targetChannelChans.Insert(replicateID, targetChannelChan)
 		}
 		m.channelTSLocks.Unlock(replicateID)
-		targetChannelChan <- channelName
+		// the ts info should be visible before the channel name is announced,
+		// because the consumer gets the target channel by the name without the channel lock
 		m.channelTS2.Insert(channelKey, &tsInfo{
 			cts:           c,
 			sts:           t,
 			period:        p,
 			targetMsgChan: make(chan *api.ReplicateMsg, channeBufferSize),
 		})
+		targetChannelChan <- channelName
 		return
 	}
 	if ts.sts.After(t) {
